@@ -171,7 +171,19 @@ def model(repo):
         P("the tile reference does not carry the tile index as tileid")
     merged = [c for c in ast.walk(tile_loop) if isinstance(c, ast.Call) and last_attr(c.func) == "MergeFrom" and ref_var and U(c.func.value) == f"{ref_var}.tile"]
     ok2 = len(merged) == 1 and any(isinstance(k, ast.keyword) and k.arg == "identifier" and U(k.value) == tile_id for c in ast.walk(merged[0]) if isinstance(c, ast.Call) for k in c.keywords)
-    appended = [c for c in ast.walk(tile_loop) if isinstance(c, ast.Call) and last_attr(c.func) == "append" and U(c.func.value).endswith(".tiles.tiles") and c.args and U(c.args[0]) == ref_var]
+    if not merged and ref_var:
+        # the model's own helper: ``self.set_reference(obj, id)`` is ``obj.MergeFrom(Reference(identifier=id))`` (read from its body)
+        try:
+            sr = repo.func("model.py", "_NumbersModel.set_reference")
+            ps = [a.arg for a in sr.args.args]
+            body = [b for b in sr.body if not (isinstance(b, ast.Expr) and isinstance(b.value, ast.Constant))]
+            is_merge = len(ps) == 3 and len(body) == 1 and isinstance(body[0], ast.Expr) and U(body[0].value).replace(" ", "") in (
+                f"{ps[1]}.MergeFrom(TSPMessages.Reference(identifier={ps[2]}))", f"{ps[1]}.MergeFrom(Reference(identifier={ps[2]}))")
+        except Exception:  # noqa: BLE001
+            is_merge = False
+        via = [c for c in ast.walk(tile_loop) if isinstance(c, ast.Call) and U(c.func) == "self.set_reference" and len(c.args) == 2 and not c.keywords and U(c.args[0]) == f"{ref_var}.tile"]
+        ok2 = is_merge and len(via) == 1 and U(via[0].args[1]) == tile_id
+    appended = [c for c in ast.walk(tile_loop) if isinstance(c, ast.Call) and last_attr(c.func) == "append" and U(bs.at(c, c.func.value)).endswith(".tiles.tiles") and c.args and U(c.args[0]) == ref_var]
     cleared = [c for c in body_walk(f) if isinstance(c, ast.Call) and last_attr(c.func) == "ClearField" and c.args and try_const(c.args[0]) == "tiles" and c.lineno < tile_loop.lineno]
     out["ref_ok"] = ok
     out["refs_ok"] = ok2 and len(appended) == 1 and bool(cleared)
